@@ -10,7 +10,7 @@ RULE = ("the finite matrix decorator {asynq, asynq pure, async_proxy, asynq+sync
         "acached_per_instance} x binding {function, method via instance, via class, via subclass instance, classmethod (via subclass), staticmethod} x signature "
         "{(x), (x, y=10), (x, *, z=20), (x, y=10, *, z=20)} x body {plain return, generator yielding a child task, batch-blocking, raising}, from generated "
         "source; (matrix) every cell once with a canonical spelling, exhaustively; (spellings) Hypothesis draws cell, argument values and positional/keyword/"
-        "default spellings. Every cell is non-trivial; distinct = distinct (cell, arguments, spelling)")
+        "default spellings. Every cell is non-trivial; distinct = distinct (cell, arguments, spelling) The class instances are distinct objects that compare equal (except under decorators keyed by the receiver); another instance always uses the callable first, also through async_call.")
 ASSUMPTIONS = ["aretry / alru_cache / acached_per_instance are exercised on the bindings they are written for (functions and instance methods)",
                "@async_proxy(pure=True) returns the function unchanged and is not part of the property's enumerated domain (DESIGN.md note N2)"]
 
